@@ -75,6 +75,8 @@ pub struct DrvState {
     pub hot_left: u32,
     /// next letter of the enumerated sequence of external events (Plan::ext_script)
     pub ext_pos: usize,
+    /// task polls since the last letter was performed
+    pub polls_since_letter: u32,
 }
 
 pub struct SimDriver {
@@ -110,6 +112,7 @@ impl SimDriver {
                 cancel_budget: 4,
                 hot_left: 0,
                 ext_pos: 0,
+                polls_since_letter: 0,
             }),
         }
     }
@@ -765,16 +768,21 @@ impl Driver for SimDriver {
                         _ => true,
                     });
                 }
-                let pos = self.st.borrow().ext_pos;
-                if pos < plan.ext_script.len() && runnable.is_empty() && acts.is_empty() {
+                let (pos, since) = {
+                    let st = self.st.borrow();
+                    (st.ext_pos, st.polls_since_letter)
+                };
+                let quiet = runnable.is_empty() && acts.is_empty();
+                if pos < plan.ext_script.len() && (quiet || (plan.ext_script[pos].delay != 255 && since >= u32::from(plan.ext_script[pos].delay))) {
                     let mut k = pos;
                     loop {
                         self.exec_letter(plan.ext_script[k].act);
                         k += 1;
-                        if k >= plan.ext_script.len() || !plan.ext_script[k].eager {
+                        if k >= plan.ext_script.len() || plan.ext_script[k].delay != 0 {
                             break;
                         }
                     }
+                    self.st.borrow_mut().polls_since_letter = 0;
                     self.st.borrow_mut().ext_pos = k;
                     self.observe();
                     continue;
@@ -868,6 +876,7 @@ impl Driver for SimDriver {
                 };
                 let (qidx, _, _) = runnable[k];
                 let tid = rt.sim_run(qidx);
+                self.st.borrow_mut().polls_since_letter += 1;
                 log::trace!("RUN task {tid:?} (queue len was {})", runnable.len());
                 self.w.stats.borrow_mut().task_polls += 1;
             }
